@@ -10,14 +10,17 @@ Suites
              of the list's own observer and of every project observer, the
              error flags, serializeDetails (parsed back into lines)
   CLI        whole CompareLocales().handle(...) runs on generated project trees
-             in a temporary directory; exit status, JSON output, and the model
-             fed the recorded event stream
+             (.properties and Fluent files, entities with two or more errors)
+             in a temporary directory, each without and with a merge stage at
+             three quiet levels; exit status, JSON output, and the model fed
+             the recorded event stream
 Oracle (implementation only): the expected summaries are computed from the
 event list by construction; every detail must sit under exactly the path of the
 file it was raised for; re-running the same history at every quiet level must
 leave summaries and error flag unchanged and only remove details; the list's
 return value is ignore iff every project observer ignores, error if any says
-error; exit status 1 iff errors were counted unless return_zero.
+error; exit status 1 iff errors were counted unless return_zero; summaries,
+details, error flag and exit status are identical with and without --merge.
 """
 import contextlib
 import io
@@ -639,7 +642,7 @@ def run_observer(chk, model):
 
 
 # ---------------------------------------------------------------- CLI -----
-WORDS = ["Alpha", "Beta", "Gamma", "Delta"]
+FTL_ATTRS = ["label", "title", "tooltip"]
 
 
 def gen_project(rng):
@@ -652,12 +655,16 @@ def gen_project(rng):
         top = "p%d" % ci
         files = {}
         for _ in range(rng.randint(1, 3)):
-            rel = top + "/" + rng.choice(dirs) + "/" + rng.choice(["a", "b", "c"]) + ".properties"
+            ftl = rng.random() < 0.4
+            rel = top + "/" + rng.choice(dirs) + "/" + rng.choice(["a", "b", "c"]) + \
+                (".ftl" if ftl else ".properties")
             if rel in used:
                 continue
             used.add(rel)
             keys = ["k%d" % i for i in range(1, rng.randint(2, 6))]
-            ref = {k: (rng.randint(1, 3), rng.random() < 0.3) for k in keys}   # words, has %S
+            # words, has %S (properties), attributes (Fluent)
+            ref = {k: (rng.randint(1, 3), (not ftl) and rng.random() < 0.3,
+                       rng.sample(FTL_ATTRS, rng.randint(0, 3)) if ftl else []) for k in keys}
             per_locale = {}
             for loc in locales:
                 r = rng.random()
@@ -666,11 +673,17 @@ def gen_project(rng):
                     continue
                 ent = {}
                 for k in keys:
-                    ent[k] = rng.choices(["same", "changed", "missing", "nofmt"], [3, 3, 2, 1])[0]
+                    ent[k] = rng.choices(["same", "changed", "missing", "nofmt", "noattr"],
+                                         [3, 3, 2, 1, 3 if ftl else 0])[0]
                     if ent[k] == "nofmt" and not ref[k][1]:
                         ent[k] = "changed"
+                    if ent[k] == "noattr":
+                        # the localized message lacks n >= 1 attributes: n errors on ONE entity
+                        n = rng.randint(1, len(ref[k][2])) if ref[k][2] else 0
+                        ent[k] = "noattr%d" % n if n else "changed"
                 per_locale[loc] = {"ent": ent, "obsolete": ["o%d" % i for i in range(rng.randint(0, 2))],
-                                   "junk": int(rng.random() < 0.3), "dup": rng.random() < 0.2}
+                                   "junk": int((not ftl) and rng.random() < 0.3),
+                                   "dup": (not ftl) and rng.random() < 0.2}
             files[rel] = {"ref": ref, "l10n": per_locale}
         obsolete_files = {}
         for loc in locales:
@@ -694,6 +707,15 @@ def value(words, fmt, changed):
     return " ".join(ws + (["%S"] if fmt else []))
 
 
+def entry(k, w, fmt, attrs, changed):
+    """one entity in file syntax (.properties line, or Fluent message with attributes)"""
+    return "%s = %s\n" % (k, value(w, fmt, changed)) + "".join("    .%s = Attr\n" % a for a in attrs)
+
+
+def lost_attrs(how):
+    return int(how[6:]) if how.startswith("noattr") else 0
+
+
 def dup_key(st):
     """the key written twice (an error of its own), if any"""
     present = [k for k, how in st["ent"].items() if how != "missing"]
@@ -705,9 +727,9 @@ def write_project(root, proj):
     for ci, cfg in enumerate(proj["configs"]):
         lines = ['basepath = "."', "locales = [%s]" % ", ".join('"%s"' % l for l in proj["locales"]),
                  "[[paths]]", '  reference = "en/%s/**"' % cfg["top"],
-                 '  l10n = "l10n/{locale}/%s/**"' % cfg["top"]]
+                 '  l10n = "{l10n_base}/{locale}/%s/**"' % cfg["top"]]
         for flt in cfg["filters"]:
-            lines += ["[[filters]]", '  path = "l10n/{locale}/%s"' % flt["rel"]]
+            lines += ["[[filters]]", '  path = "{l10n_base}/{locale}/%s"' % flt["rel"]]
             if flt["key"]:
                 lines.append('  key = "%s"' % flt["key"])
             lines.append('  action = "%s"' % flt["action"])
@@ -719,8 +741,8 @@ def write_project(root, proj):
             rp = os.path.join(root, "en", rel)
             os.makedirs(os.path.dirname(rp), exist_ok=True)
             with open(rp, "w") as f:
-                for k, (w, fmt) in fd["ref"].items():
-                    f.write("%s = %s\n" % (k, value(w, fmt, False)))
+                for k, (w, fmt, attrs) in fd["ref"].items():
+                    f.write(entry(k, w, fmt, attrs, False))
             for loc, st in fd["l10n"].items():
                 if st is None:
                     continue
@@ -728,17 +750,19 @@ def write_project(root, proj):
                 os.makedirs(os.path.dirname(lp), exist_ok=True)
                 with open(lp, "w") as f:
                     for k, how in st["ent"].items():
-                        w, fmt = fd["ref"][k]
+                        w, fmt, attrs = fd["ref"][k]
                         if how == "same":
-                            f.write("%s = %s\n" % (k, value(w, fmt, False)))
+                            f.write(entry(k, w, fmt, attrs, False))
                         elif how == "changed":
-                            f.write("%s = %s\n" % (k, value(w, fmt, True)))
+                            f.write(entry(k, w, fmt, attrs, True))
                         elif how == "nofmt":
-                            f.write("%s = %s\n" % (k, value(w, False, True)))
+                            f.write(entry(k, w, False, attrs, True))
+                        elif lost_attrs(how):
+                            f.write(entry(k, w, fmt, attrs[lost_attrs(how):], True))
                     for j in range(st["junk"]):
                         f.write("junk line %d\n" % j)
                     for k in dup_key(st):
-                        w, fmt = fd["ref"][k]
+                        w, fmt, _ = fd["ref"][k]
                         f.write("%s = %s\n" % (k, value(w, fmt and st["ent"][k] != "nofmt",
                                                          st["ent"][k] != "same")))
                     for o in st["obsolete"]:
@@ -754,9 +778,8 @@ def write_project(root, proj):
     return paths
 
 
-def expected_cli(proj):
+def expected_cli(proj, q):
     """per config: {locale: counters}, {detail path: multiset of items}; by construction"""
-    q = proj["quiet"]
     out = []
     for cfg in proj["configs"]:
         summ = {}
@@ -777,12 +800,13 @@ def expected_cli(proj):
                         continue
                     detail(loc, rel, {"missingFile": "error"}, "missingFile")
                     bump(loc, "missing", len(fd["ref"]))
-                    bump(loc, "missing_w", sum(w + (1 if fmt else 0) for w, fmt in fd["ref"].values()))
+                    bump(loc, "missing_w", sum(w + (1 if fmt else 0) + len(attrs)
+                                               for w, fmt, attrs in fd["ref"].values()))
                     continue
                 bump(loc, "keys", 0)
                 for k, how in st["ent"].items():
-                    w, fmt = fd["ref"][k]
-                    words = w + (1 if fmt else 0)
+                    w, fmt, attrs = fd["ref"][k]
+                    words = w + (1 if fmt else 0) + len(attrs)
                     if how == "missing":
                         act = key_action.get(k, "error")
                         if act == "ignore":
@@ -802,6 +826,9 @@ def expected_cli(proj):
                         if how == "nofmt":
                             bump(loc, "warnings")
                             detail(loc, rel, "warning", "warning")
+                        for _ in range(lost_attrs(how)):      # one error per missing attribute
+                            bump(loc, "errors")
+                            detail(loc, rel, "error", "error")
                 for o in st["obsolete"]:
                     bump(loc, "obsolete")
                     detail(loc, rel, {"obsoleteEntity": o}, "obsoleteEntity")
@@ -910,10 +937,118 @@ def cli_canon_observer(case, strs, o):
     return [canon_summary(case, js["summary"]), canon_json(case, js["details"], item), int(bool(o.error))]
 
 
+def cli_run(commands, real_compare, tomls, root, proj, quiet, merge):
+    """one CompareLocales().handle(...) run -> (exit status, JSON output, Recorder)"""
+    out_json = os.path.join(root, "out.json")
+    stage = os.path.join(root, "stage")
+    shutil.rmtree(stage, ignore_errors=True)
+    rec = Recorder()
+    with recording(rec), contextlib.redirect_stdout(io.StringIO()):
+        def wrapped(*a, **kw):
+            rec.list = real_compare(*a, **kw)
+            return rec.list
+        commands.compareProjects = wrapped
+        try:
+            rv = commands.CompareLocales().handle(
+                config_paths=tomls, l10n_base_dir=os.path.join(root, "l10n"),
+                locales=list(proj["locales"]), quiet=quiet, json=out_json,
+                merge=stage if merge else None,
+                return_zero=proj["return_zero"])
+        except SystemExit as e:        # parser.exit(2) after "FAIL: <OSError>"
+            rv = "SystemExit(%s)" % e.code
+        finally:
+            commands.compareProjects = real_compare
+    data = json.load(open(out_json)) if os.path.exists(out_json) and not isinstance(rv, str) else []
+    rec.staged = sum(len(fs) for _, _, fs in os.walk(stage))
+    shutil.rmtree(stage, ignore_errors=True)
+    if os.path.exists(out_json):
+        os.remove(out_json)
+    return rv, data, rec
+
+
+def cli_norm(items):
+    """error / warning messages are compared by kind only"""
+    return sorted(json.dumps(x if isinstance(x, dict) and next(iter(x)) not in ("error", "warning")
+                             else (next(iter(x)) if isinstance(x, dict) else x)) for x in items)
+
+
+def cli_oracle(chk, proj, quiet, merge, rv, data, ol):
+    """the run against the per-file expectations known by construction"""
+    exp = expected_cli(proj, quiet)
+    pub = {"project": proj, "quiet": quiet, "merge": merge}
+    errors = sum(c["errors"] for s, _ in exp for c in s.values())
+    want_rv = 1 if errors > 0 and not proj["return_zero"] else 0
+    chk.hist("cli_exit", want_rv)
+    if rv != want_rv:
+        _fail(chk, "exit-status", pub, {"returned": rv, "errors_counted": errors,
+                                        "return_zero": proj["return_zero"]})
+    if len(data) != len(exp):
+        _fail(chk, "cli-json-shape", pub, {"observers": len(data)})
+    for (summ, details), got in zip(exp, data):
+        if got["summary"] != summ:
+            _fail(chk, "cli-summary", pub, {"summary": got["summary"], "expected": summ})
+        flat = {"/".join(p): v for p, v in flat_json(got["details"]).items()} \
+            if got["details"] != {} else {}
+        if {k: cli_norm(v) for k, v in flat.items()} != {k: cli_norm(v) for k, v in details.items()}:
+            _fail(chk, "cli-detail-misplaced", pub, {"details": flat, "expected": details})
+    # the union: the list's own observer drives the text output and the exit status
+    own_errors = sum(c["errors"] for c in ol.summary.values())
+    if own_errors != errors or bool(ol.error) != (errors > 0):
+        _fail(chk, "cli-union-errors", pub, {"own_errors": own_errors, "error": ol.error,
+                                             "expected": errors})
+    for loc in proj["locales"]:
+        for k in SUMMARY_KEYS:
+            tot = sum(s.get(loc, {}).get(k, 0) for s, _ in exp)
+            if ol.summary.get(loc, {}).get(k, 0) != tot:
+                _fail(chk, "cli-union-summary", pub, {"locale": loc, "key": k,
+                                                      "own": ol.summary.get(loc, {}).get(k, 0),
+                                                      "expected": tot})
+
+
+def cli_compare_merge(chk, proj, quiet, runs):
+    """merging does not change what is counted or shown"""
+    (rv0, d0, e0, s0), (rv1, d1, e1, s1) = runs[False], runs[True]
+    pub = {"project": proj, "quiet": quiet}
+    if rv0 != rv1 or e0 != e1 or s0 != s1 or \
+            [o["summary"] for o in d0] != [o["summary"] for o in d1]:
+        _fail(chk, "merge-changes-count", pub,
+              {"plain": {"exit": rv0, "error": e0, "own": s0, "summaries": [o["summary"] for o in d0]},
+               "merge": {"exit": rv1, "error": e1, "own": s1, "summaries": [o["summary"] for o in d1]}})
+    if [o["details"] for o in d0] != [o["details"] for o in d1]:
+        _fail(chk, "merge-changes-details", pub,
+              {"plain": [o["details"] for o in d0], "merge": [o["details"] for o in d1]})
+
+
+def cli_replay_project(chk, proj, quiet):
+    """re-run one generated project (plain and merge) against the oracle"""
+    from compare_locales import commands
+    real_compare = commands.compareProjects
+    root = tempfile.mkdtemp(prefix="c10_cli_")
+    before = len(chk.failures)
+    try:
+        tomls = write_project(root, proj)
+        runs = {}
+        for merge in (False, True):
+            rv, data, rec = cli_run(commands, real_compare, tomls, root, proj, quiet, merge)
+            ol = rec.list
+            if ol is None or isinstance(rv, str):
+                _fail(chk, "cli-run-aborted", {"project": proj, "quiet": quiet, "merge": merge}, {"returned": rv})
+                return 1
+            runs[merge] = (rv, data, bool(ol.error), {l: dict(c) for l, c in ol.summary.items()})
+            cli_oracle(chk, proj, quiet, merge, rv, data, ol)
+        cli_compare_merge(chk, proj, quiet, runs)
+    finally:
+        commands.compareProjects = real_compare
+        shutil.rmtree(root, ignore_errors=True)
+    return int(len(chk.failures) > before)
+
+
 def run_cli(chk, model):
+    """every generated project is run without and with a merge stage at three
+    quiet levels; merging must not change what is counted or shown"""
     from compare_locales import commands
     rng = chk.rng
-    n = chk.n(40, 500)
+    n = chk.n(40, 400)
     base = tempfile.mkdtemp(prefix="c10_cli_")
     cases, impl, wires = [], [], []
     real_compare = commands.compareProjects
@@ -923,69 +1058,39 @@ def run_cli(chk, model):
             root = os.path.join(base, "p%d" % i)
             os.makedirs(root)
             tomls = write_project(root, proj)
-            out_json = os.path.join(root, "out.json")
-            rec = Recorder()
-            buf = io.StringIO()
-            with recording(rec), contextlib.redirect_stdout(buf):
-                def wrapped(*a, **kw):
-                    rec.list = real_compare(*a, **kw)
-                    return rec.list
-                commands.compareProjects = wrapped
-                try:
-                    rv = commands.CompareLocales().handle(
-                        config_paths=tomls, l10n_base_dir=os.path.join(root, "l10n"),
-                        locales=list(proj["locales"]), quiet=proj["quiet"], json=out_json,
-                        return_zero=proj["return_zero"])
-                finally:
-                    commands.compareProjects = real_compare
-            data = json.load(open(out_json))
-            chk.count(("cli", json.dumps(proj, sort_keys=True)))
-            chk.hist("cli_quiet", proj["quiet"])
-            # ---- oracle --------------------------------------------------
-            exp = expected_cli(proj)
-            pub = {"project": proj}
-            errors = sum(c["errors"] for s, _ in exp for c in s.values())
-            want_rv = 1 if errors > 0 and not proj["return_zero"] else 0
-            chk.hist("cli_exit", want_rv)
-            if rv != want_rv:
-                _fail(chk, "exit-status", pub, {"returned": rv, "errors_counted": errors,
-                                              "return_zero": proj["return_zero"]})
-            if len(data) != len(exp):
-                _fail(chk, "cli-json-shape", pub, {"observers": len(data)})
-            for (summ, details), got in zip(exp, data):
-                if got["summary"] != summ:
-                    _fail(chk, "cli-summary", pub, {"summary": got["summary"], "expected": summ})
-                flat = {"/".join(p): v for p, v in flat_json(got["details"]).items()} \
-                    if got["details"] != {} else {}
-
-                def norm(items):
-                    return sorted(json.dumps(x if isinstance(x, dict) and next(iter(x)) not in ("error", "warning")
-                                             else (next(iter(x)) if isinstance(x, dict) else x)) for x in items)
-                if {k: norm(v) for k, v in flat.items()} != {k: norm(v) for k, v in details.items()}:
-                    _fail(chk, "cli-detail-misplaced", pub, {"details": flat, "expected": details})
-            # the union: the list's own observer drives the text output and the exit status
-            ol = rec.list
-            own_errors = sum(c["errors"] for c in ol.summary.values())
-            if own_errors != errors or bool(ol.error) != (errors > 0):
-                _fail(chk, "cli-union-errors", pub, {"own_errors": own_errors, "error": ol.error,
-                                                   "expected": errors})
-            for loc in proj["locales"]:
-                for k in SUMMARY_KEYS:
-                    tot = sum(s.get(loc, {}).get(k, 0) for s, _ in exp)
-                    if ol.summary.get(loc, {}).get(k, 0) != tot:
-                        _fail(chk, "cli-union-summary", pub, {"locale": loc, "key": k,
-                                                            "own": ol.summary.get(loc, {}).get(k, 0),
-                                                            "expected": tot})
-            # ---- model on the recorded stream ------------------------------
-            case, strs, wire = cli_model_case(rec, proj["quiet"])
-            cases.append(pub)
-            wires.append(wire)
-            impl.append([cli_canon_observer(case, strs, ol),
-                         [cli_canon_observer(case, strs, o) for o in ol.observers],
-                         [rv, 0] if not proj["return_zero"] else [int(bool(ol.error)), rv]])
-            if i == 0:
-                chk.sample({"suite": "CLI", "project": proj, "exit": rv, "json": data,
-                            "events": len(rec.events)})
+            multi = sum(lost_attrs(how) >= 2 for cfg in proj["configs"] for fd in cfg["files"].values()
+                        for st in fd["l10n"].values() if st for how in st["ent"].values())
+            chk.hist("cli_entities_with_2+_errors", min(multi, 3))
+            quiets = [proj["quiet"]] + rng.sample([q for q in range(5) if q != proj["quiet"]], 2)
+            for quiet in quiets:
+                runs = {}
+                for merge in (False, True):
+                    rv, data, rec = cli_run(commands, real_compare, tomls, root, proj, quiet, merge)
+                    ol = rec.list
+                    if ol is None or isinstance(rv, str):
+                        _fail(chk, "cli-run-aborted", {"project": proj, "quiet": quiet, "merge": merge},
+                              {"returned": rv})
+                        runs = None
+                        break
+                    if merge:
+                        chk.hist("cli_staged_files", min(rec.staged, 5))
+                    runs[merge] = (rv, data, bool(ol.error), {l: dict(c) for l, c in ol.summary.items()})
+                    chk.count(("cli", json.dumps(proj, sort_keys=True), quiet, merge))
+                    chk.hist("cli_quiet", quiet)
+                    chk.hist("cli_merge", merge)
+                    cli_oracle(chk, proj, quiet, merge, rv, data, ol)
+                    # ---- model on the recorded stream ----------------------
+                    case, strs, wire = cli_model_case(rec, quiet)
+                    cases.append({"project": proj, "quiet": quiet, "merge": merge})
+                    wires.append(wire)
+                    impl.append([cli_canon_observer(case, strs, ol),
+                                 [cli_canon_observer(case, strs, o) for o in ol.observers],
+                                 [rv, 0] if not proj["return_zero"] else [int(bool(ol.error)), rv]])
+                    if i == 0 and quiet == proj["quiet"] and merge:
+                        chk.sample({"suite": "CLI", "project": proj, "merge": True, "exit": rv,
+                                    "json": data, "events": len(rec.events)})
+                if runs is not None:
+                    cli_compare_merge(chk, proj, quiet, runs)
             shutil.rmtree(root, ignore_errors=True)
     finally:
         commands.compareProjects = real_compare
@@ -1044,8 +1149,7 @@ def replay(chk, path):
         print("failure", f["signature"])
         c = f["case"]
         if "project" in c:
-            print(" project case: re-run ./check C10 with the recorded seed", data.get("seed"))
-            rc = 1
+            rc |= cli_replay_project(chk, c["project"], c.get("quiet", c["project"]["quiet"]))
         else:
             rc |= replay_case(chk, c, model)
     for d in data.get("disagreements", []):
